@@ -8,7 +8,7 @@ TECH = "contract-based deductive verification (govc: VCs from go/ssa of /repo + 
 
 CLAIMS = {
  "C01": ("proof of every stage contract: Wrap/unwrap of X25519 and scrypt stanzas as spec terms (body = seal(hkdf/scrypt key, zero nonce, file key)); multiUnwrap returns the first stanza whose error does not wrap ErrIncorrectIdentity; Decrypt consults identities in order and none after the first that opens (ghost call log); Encrypt assembles header, MAC, nonce and stream writer from one file key; stream Writer/Reader chunk contracts (seal/open per counter nonce). Composition of the stages into the end-to-end sentence is by the stated functional laws, not mechanised.",
-         "AEAD/X25519/HKDF/scrypt as uninterpreted functions with functional laws; Header.MarshalWithoutMAC output assumed to be a function of the stanza fields (hdrbytes); library contracts listed in evidence; ssh recipient types not yet under contract"),
+         "AEAD/X25519/HKDF/scrypt as uninterpreted functions with functional laws; Header.MarshalWithoutMAC output assumed to be a function of the stanza fields (hdrbytes); library contracts listed in evidence; the end-to-end composition of the stage contracts is not mechanised"),
  "C02": ("proof: readChunk/Read accept a chunk only if it opens under nonceOf(counter, final flag); counter increments exactly once per chunk (incNonce proved for all 2^88 counters); empty final chunk only if first; short read implies final; errors are sticky and never io.EOF on truncation; clean EOF requires the probe to return no data; Decrypt derives the payload key from the authenticated file key and the 16 nonce bytes read from the payload.",
          "AEAD unforgeability is cryptographic (not a contract); io.Reader/io.ReadFull contracts over a prophecy ghost stream"),
  "C03": ("proof: on every path on which Decrypt returns a reader, hmac.Equal was called exactly once on the whole computed MAC and the whole hdr.MAC and returned true; the MAC is HMAC-SHA256 under HKDF(file key, no salt, 'header') of the header serialisation; headerMAC and Header.Marshal pinned at call sites.",
@@ -16,25 +16,25 @@ CLAIMS = {
  "C04": ("proof: X25519 and scrypt unwrap map AEAD failure to exactly ErrIncorrectIdentity and return no key with any error; Decrypt returns NoIdentityMatchError with one collected cause per identity, each wrapping ErrIncorrectIdentity, when every Unwrap reported a no-match; no reader without a key returned with nil error.",
          "that a foreign key fails to open is cryptographic; Identity.Unwrap interface contract (err != nil ==> no key) assumed for custom identities, proved for native ones"),
  "C05": ("proof of call-site obligations pinning every constant of the age v1 format independently on the writing and the reading side: HKDF hash/salt order/info labels, scrypt salt prefix/N/r/p/key length, zero AEAD nonce, 16-byte file key and nonce, 'header'/'payload' derivations, chunk size and nonce layout (11-byte big-endian counter + flag), intro line, '->' and '---' prefixes (package initialisers checked on SSA).",
-         "frozen-corpus / independent-encoder half of the property is differential testing and is not decided by this technique; ssh stanzas not yet pinned"),
+         "frozen-corpus / independent-encoder half of the property is differential testing and is not decided by this technique"),
  "C06": ("proof via provenance by value: file key, payload nonce, X25519 ephemeral scalar and scrypt salt equal csprng(draw index) of a crypto/rand.Read made in the same call, with distinct draw indices; both X25519 calls use that scalar; stream nonces are counter-from-zero with the final flag set only by Close, and a closed Writer cannot seal again.",
-         "quality/distinctness of CSPRNG output is probabilistic; ssh-ed25519 Wrap and plugin grease sites not yet under contract"),
+         "quality/distinctness of CSPRNG output is probabilistic; the plugin client's grease values are not traced to a CSPRNG draw"),
  "C07": ("proof of leaf and structural contracts: isValidString iff all bytes in 33..126 (rune abstraction); splitArgs re-joins to the line; ReadStanza sticky error, valid type/args, body lines of exactly 48 decoded bytes until a short one, progress; Parse rejects with (nil,nil), 32-byte MAC, payload is a suffix of the input stream in both the bufio and MultiReader branches; writeWrapped emits exactly wrapcols(written, p) (64-column wrapping proved against a recursive spec); DecodeString strict/canonical.",
          "text-level inverse lemmas (Parse o Marshal = id) are not mechanised; base64 encoder composition assumed; bufio/strings contracts assumed"),
  "C08": ("proof of the armor state machines: the writer emits the BEGIN line exactly once and before any encoded byte (also when Close is the first call), Close emits the END line preceded by a newline iff the last base64 line is non-empty and its output is BEGIN-less text = out0 ++ wrapcols(0, base64(data)) ++ footer; the reader stores and returns every failure as *armor.Error, never returns data after an error, accepts only lines of at most 64 columns of strict padded base64, rejects empty body lines, requires the END line right after a short line, decodes one line per refill and bounds leading/trailing whitespace by 1024 bytes.",
          "standard base64 encoder/decoder contracts assumed (stdb64ok/stdb64dec uninterpreted); composition of base64.NewEncoder with the proved writeWrapped assumed; text-level re-armor identity not mechanised"),
  "C09": ("proof: polymod is the fold of polystep over its input from state 1 (loop invariant, code vs spec with xor uninterpreted); polystep is GF(2)-linear, keeps 30 bits, and the six checksum symbols close the register to 1 (three QF_BV lemmas, for all 2^30 states and all symbol values); Decode accepts only printable ASCII, single case, last '1' separator at 1 <= pos <= len-7, charset symbols < 32, at least six data symbols; convertBits emits tobits-bit symbols and returns no data with an error; ParseX25519Recipient/Identity accept exactly HRP 'age' / 'AGE-SECRET-KEY-' and 32-byte payloads; String() encodes under those HRPs; validPluginName iff every rune is in the 66-character allow-list; plugin Parse*/Encode* return names only if valid.",
          "strings.ToLower/ToUpper given the honest (ASCII-only) contract; the <=4-substitution claim additionally needs the exhaustive syndrome enumeration (thorough tier); 5<->8 bit regrouping round trip not mechanised"),
- "C10": ("proof: ScryptIdentity.Unwrap rejects (non-EII error, no scrypt.Key call) whenever a scrypt stanza is not the only stanza, at any position; unwrap calls scrypt.Key only with a canonical decimal work factor 1..maxWorkFactor, N = 2^logN, r=8, p=1; WrapWithLabels returns one fresh 128-bit hex label; digitsRe initialiser pinned to ^[1-9][0-9]*$.",
-         "two fresh 128-bit labels differ: probabilistic; cmd/age LazyScryptIdentity not yet under contract"),
+ "C10": ("proof: ScryptIdentity.Unwrap rejects (non-EII error, no scrypt.Key call) whenever a scrypt stanza is not the only stanza, at any position; unwrap calls scrypt.Key only with a canonical decimal work factor 1..maxWorkFactor, N = 2^logN, r=8, p=1; WrapWithLabels returns one fresh 128-bit hex label; digitsRe initialiser pinned to ^[1-9][0-9]*$; NewScryptRecipient/NewScryptIdentity keep the passphrase byte for byte; the CLI's LazyScryptIdentity refuses a mixed header before prompting and hands the unfiltered stanza list to ScryptIdentity.Unwrap.",
+         "two fresh 128-bit labels differ: probabilistic"),
  "C11": ("proof: slicesEqual iff element-wise equal; Encrypt sorts every recipient's labels (count ghost), compares each later recipient against the first, and on every refusing return (no recipients, wrap error, incompatible labels) dst's ghost output is unchanged and Header.Marshal has not been called.",
          "sort.Strings is a sorting permutation: assumed; multiset semantics of the comparison follows from that"),
  "C12": ("proof over ghost streams: Writer.Write reports the full count on success, holds back at most one chunk and flushes a full buffer only when more data arrives (counting invariant on the nonce counter), output of flush/Close is a function of the buffered bytes only; Reader consumes at most one chunk plus the one-byte probe per call and releases buffered plaintext position for position; io.Reader contracts quantify over every delivery schedule including data-with-EOF.",
          "bufio / io.ReadFull contracts assumed; armor reader not yet under contract"),
  "C13": ("proof: flushChunk returns the destination's error and on nil error the whole sealed chunk reached dst; Write/Close store and return the first error and keep returning it; Close leaves the writer closed; Encrypt returns an error whenever Header.Marshal or the nonce write fails; Reader stores every error, never maps a source failure to io.EOF.",
          "io.Writer law n < len(p) ==> err != nil assumed of the destination"),
- "C14": ("proof: zero-annotation safety sweep (index, slice bounds, nil dereference, type assertion, division, signed overflow, explicit panic unreachable) plus a decreasing variant for every annotated loop, for every function under contract in age, internal/stream and internal/format; scrypt work bounded by the C10 call-site obligation.",
-         "library internals assumed panic-free and terminating; < 2^88 chunks per stream; functions not yet under contract (armor, bech32, parse.go, agessh, plugin, cmd) are not covered yet"),
+ "C14": ("proof: zero-annotation safety sweep (index, slice bounds, nil dereference, type assertion, division, signed overflow, explicit panic unreachable) plus a decreasing variant for every annotated loop, for every function under contract in age, internal/stream, internal/format, internal/bech32, armor, agessh, plugin and the cmd packages (except the functions marked nosafety, listed in the evidence); scrypt work bounded by the C10 call-site obligation; the armor reader consumes at most twice its counted whitespace before the header.",
+         "library internals assumed panic-free and terminating; < 2^88 chunks per stream; struct values built by callers are assumed well-formed (e.g. RSAIdentity.k non-nil): the property quantifies over input bytes"),
  "C15": ("proof: errorf, errorWithHint, exit and age-keygen's errorf never return (so every failure path ends the process with a non-zero status); decrypt and encrypt return normally only if age.Decrypt/age.Encrypt, the output-opening write, io.Copy, the stream Close and (with -a) the armor Close each ran exactly once and returned a nil error (per-call-site ghost counters and last-error ghosts, also inside deferred closures); decrypt touches the output at least once and only after age.Decrypt succeeded, so a header-level refusal neither creates nor modifies the -o file; lazyOpener creates the file on the first Write only, exactly once, never reopens it, keeps the creation error sticky, and Close reports the file's Close error; newLazyOpener opens nothing; main refuses the output unless its canonical absolute path differs from that of every -i file, every -R file and the input file (loop invariants with an existential witness in inUseFiles); the mode wrappers pass in/out/armor through unchanged and call decrypt/encrypt exactly once; age-keygen opens its output with exactly O_WRONLY|O_CREATE|O_EXCL and mode 0600, closes it with the error checked, and generate/convert return only if every key/recipient line was written with a nil error.",
          "exit status is modelled as 'returns normally from main' (0) versus 'ends in a non-returning call' (non-zero); the prefix-of-plaintext half is carried by the stream Reader contracts of C02/C12 (plaintext released only after authentication), not re-proved here; filepath.Abs assumed deterministic (canonical path as an uninterpreted function); flag package, os.Create/OpenFile, io.Copy and fmt.Fprintf contracts assumed; run-time safety of main is not checked (nosafety)"),
  "C16": ("proof for every message the plugin may send (one symbolic loop iteration against ReadStanza's contract stands for any message at any point): phase 1 of both state machines writes exactly add-recipient|add-identity <encoding>, grease-<hex>, wrap-file-key with the file key (resp. one recipient-stanza 0 <type> <args> <body> per stanza, in order), extension-labels, done - each exactly once (call-site execution counters); 'ok' is written for a recipient-stanza only after index 0 was validated; a second labels or file-key message is an error (counter invariant; empty file keys are rejected); 'error' is acknowledged then aborts; unknown commands get exactly one 'unsupported' and change nothing; zero stanzas / no file key are errors, the latter wrapping ErrIncorrectIdentity through the %w wrappers; ClientUI.handle answers every known command exactly once with the prescribed reply for every combination of nil and failing callbacks; every loop consumes input (termination relative to the plugin's stream).",
